@@ -1,5 +1,7 @@
 import PercevalModel.Proto
 import PercevalModel.Model.C16
+import PercevalModel.Model.C16Mat
+import PercevalModel.Model.C16Heap
 
 /-!
   Line protocol for C16.  One request = one session:
@@ -11,6 +13,18 @@ import PercevalModel.Model.C16
            "states": [ digest of the remote processor after each op | null ],
            "log": number of create_job calls}`.
   A request that cannot be parsed is answered `{"err": …}`.
+
+  Extension.  The request carries `"aliased": bool` (the code as it is: a job's request shares `_parameters` and the
+  iterator list with the processor / sampler; `false`: the repaired code) and the session runs on the heap machine
+  `hstep aliased` (`Model/C16Heap.lean`).  The four circuit-changing calls carry the STRUCTURE of the user's object
+    {"op":"new_remote","via_set":b,"c":UC,"noise":n|null}   {"op":"convert","p":{…},"pcomps":[COMP…]}
+    {"op":"add_comp","k":k,"c":UC}                           {"op":"set_circuit","checked":b,"c":UC}
+    UC = {"m":m,"leaves":[[offset,id,k]…],"sym":n,"cparams":[…]}   COMP = ["leaf",pos,id,k] | ["sub",pos,UC]
+  and run, next to it, on the machine with components `cstep` (`Model/C16Mat.lean`).  Any op may carry
+  `"env": [[id, rows]…]` — the matrix each elementary component denotes from now on (exact `"num/den"` pairs) — and
+  `"want": true`: the reply's `"mats"` then has, for that op, the exact matrix of the component list the processor
+  holds after it (`circMat`), `null` otherwise.  The two machines share `step`; should one refuse (precondition)
+  what the other accepts, the request is answered `{"err": …}`.
 -/
 
 open Lean PM.Proto PM.C16
@@ -158,20 +172,90 @@ def expJson (e : Exp) : Json :=
     ("filter", optJson e.filter (toJson ·)), ("params", pairsJson e.params pvJson), ("circ", symJson e.circ),
     ("wf", decide e.WF)]
 
+/-! extension: structure of circuits, environment, matrices -/
+
+def leafOf (j : Json) : Except String (Nat × Leaf) :=
+  match j with
+  | .arr #[o, i, k] => do pure (← o.getNat?, ⟨← i.getNat?, ← k.getNat?⟩)
+  | _ => throw "bad leaf"
+
+def ucOf (j : Json) : Except String UC := do
+  pure { m := ← natOf j "m", leaves := ← (← arrOf j "leaves").toList.mapM leafOf, sym := ← natOf j "sym",
+         cparams := ← strListOf (← j.getObjVal? "cparams") }
+
+def compOf (j : Json) : Except String Comp :=
+  match j with
+  | .arr #[.str "leaf", pos, i, k] => do pure (.leaf (← pos.getNat?) ⟨← i.getNat?, ← k.getNat?⟩)
+  | .arr #[.str "sub", pos, c] => do pure (.sub (← pos.getNat?) (← ucOf c))
+  | _ => throw "bad component"
+
+def copOf (j : Json) : Except String COp := do
+  let op ← strOf j "op"
+  if op = "new_remote" then
+    return .newRemote (← boolOf j "via_set") (← ucOf (← j.getObjVal? "c")) (← optOf j "noise" (·.getNat?))
+  if op = "convert" then
+    return .convert (← expOf (← j.getObjVal? "p")) (← (← arrOf j "pcomps").toList.mapM compOf)
+  if op = "add_comp" then return .add (← natOf j "k") (← ucOf (← j.getObjVal? "c"))
+  if op = "set_circuit" then return .setCircuit (← boolOf j "checked") (← ucOf (← j.getObjVal? "c"))
+  return .plain (← opOf j)
+
+abbrev Table := Array (Nat × Array (Array GQ))
+
+def tableSet (t : Table) (id : Nat) (rows : Array (Array GQ)) : Table :=
+  match t.findIdx? (·.1 == id) with
+  | some i => t.set! i (id, rows)
+  | none => t.push (id, rows)
+
+def envOf (t : Table) : Env GQ := fun id _ =>
+  let rows := (t.find? (·.1 == id)).map (·.2) |>.getD #[]
+  fun i j => (rows.getD i.val #[]).getD j.val 0
+
+def envUpdate (t : Table) (j : Json) : Except String Table := do
+  match j.getObjVal? "env" with
+  | .error _ => pure t
+  | .ok e =>
+    let mut t := t
+    for p in (← e.getArr?) do
+      match p with
+      | .arr #[i, rows] => t := tableSet t (← i.getNat?) (← gqRows rows)
+      | _ => throw "bad env entry"
+    pure t
+
+def matJson (t : Table) (N : Nat) (comps : List Comp) : Json :=
+  let m := circMatV (envOf t) N comps
+  rowsToJson (m.toArray.map (·.toArray))
+
 def handle (j : Json) : Json :=
   let r : Except String Json := do
     let pf ← platformOf (← j.getObjVal? "pf")
-    let ops ← (← arrOf j "ops").toList.mapM opOf
-    let mut w := World.init pf
+    let aliased ← boolOf j "aliased"
+    let opsJ ← arrOf j "ops"
+    let mut hw := HWorld.init pf
+    let mut cw := CWorld.init pf
+    let mut table : Table := #[]
     let mut outs : Array Json := #[]
     let mut states : Array Json := #[]
-    for op in ops do
-      let (w', o) := step w op
-      w := w'
-      outs := outs.push (outJson o)
-      states := states.push (optJson w.exp expJson)
-    pure (Json.mkObj [("outs", .arr outs), ("states", .arr states), ("log", toJson w.log.length),
-      ("iterator", optJson w.sampler (fun s => itersJson s.iterator))])
+    let mut mats : Array Json := #[]
+    for oj in opsJ do
+      table ← envUpdate table oj
+      let cop ← copOf oj
+      let (cw', oc) := cstep cw cop
+      if oc == .err .precondition ∧ cw' == cw then
+        -- outside the modelled domain of the machine with components: nothing happens on either machine
+        outs := outs.push (outJson oc)
+      else
+        let (hw', oh) := hstep aliased hw cop.toOp
+        if hw'.w.exp != cw'.w.exp then throw "the two machines disagree on the processor"
+        hw := hw'
+        cw := cw'
+        outs := outs.push (outJson oh)
+      states := states.push (optJson hw.w.exp expJson)
+      let want := (oj.getObjVal? "want").toOption.bind (·.getBool?.toOption) |>.getD false
+      mats := mats.push (match want, hw.w.exp with
+        | true, some e => matJson table e.size cw.comps
+        | _, _ => .null)
+    pure (Json.mkObj [("outs", .arr outs), ("states", .arr states), ("log", toJson hw.w.log.length),
+      ("iterator", optJson hw.w.sampler (fun s => itersJson s.iterator)), ("mats", .arr mats)])
   match r with
   | .ok v => v
   | .error e => errJson e
